@@ -217,7 +217,20 @@ def check_chain(res, facts):
         fn = fns[0]
         calls = [(bb, t) for bb, t in fn.calls() if t["f"].get("name") == prim]
         if not calls:
-            rule.bad(key, "does not use %s" % prim, fn.loc)
+            # the chain written as a fold: `limbs.iter_mut().zip(other).fold(0, |carry, (a, b)| prim(a, b, carry))`
+            clos = [c for c in facts.fns(unit="ws", crate="ark_ff") if c.kind == "Closure" and c.id.startswith(fn.id + "::{closure")]
+            folded = False
+            for c in clos:
+                pc = [t for _, t in c.calls() if t["f"].get("name") == prim]
+                if len(pc) == 1 and op_local(pc[0]["args"][2]) is not None and _root(c, op_local(pc[0]["args"][2])) == 2 and _root(c, 0) == place_parts(pc[0]["d"])[0] or (len(pc) == 1 and place_parts(pc[0]["d"])[0] == 0 and _root(c, op_local(pc[0]["args"][2])) == 2):
+                    folds = [t for _, t in fn.calls() if t["f"].get("name") == "fold" and len(t["args"]) == 3]
+                    from rules.c07 import E as _E
+                    if len(folds) == 1 and _E(fn, folds[0]["args"][1]) == 0 and place_parts(folds[0]["d"])[0] in DF.Dep(fn).slice([0]) and not any(t["f"].get("name") in ("rev", "skip", "take", "step_by") for _, t in fn.calls()):
+                        folded = True
+            if folded:
+                rule.ok(key, "carry threaded as the accumulator of a fold over the limbs from index 0, starting at 0; the fold result is the returned flag", fn.loc)
+            else:
+                rule.bad(key, "does not use %s" % prim, fn.loc)
             continue
         dep = DF.Dep(fn)
         problems = []
@@ -736,6 +749,46 @@ def _loop_models(wm):
         if isinstance(o, SX.Obj) and o.variant == "None":
             return ex_.deref(a[1])
         return NotImplemented
+    # slice iterators as python lists of element references, so that `xs.iter_mut().zip(ys.iter()).fold(init, f)` runs
+    def _items(ex_, v):
+        if isinstance(v, SX.Obj) and v.adt == "pyiter":
+            return v.fields["items"]
+        return None
+
+    def _iter(ex_, st, fr, t, a):
+        r = a[0]
+        arr = ex_.deref(r)
+        if isinstance(r, SX.Ref) and isinstance(arr, SX.Obj) and arr.adt == "array":
+            n = len(arr.fields)
+            return SX.Obj(adt="pyiter", fields={"items": [SX.Ref(r.cell, tuple(r.projs) + (("ci", i, False),)) for i in range(n)]})
+        return NotImplemented
+
+    def _zip(ex_, st, fr, t, a):
+        x, y = _items(ex_, a[0]), _items(ex_, a[1])
+        if x is None or y is None:
+            return NotImplemented
+        return SX.Obj(adt="pyiter", fields={"items": [SX.Obj(adt="tuple", fields={0: p, 1: q}) for p, q in zip(x, y)]})
+
+    def _rev(ex_, st, fr, t, a):
+        x = _items(ex_, a[0])
+        return SX.Obj(adt="pyiter", fields={"items": list(reversed(x))}) if x is not None else NotImplemented
+
+    def _fold(ex_, st, fr, t, a):
+        x = _items(ex_, a[0])
+        if x is None or len(a) != 3:
+            return NotImplemented
+        acc = a[1]
+        for item in x:
+            acc = ex_.call_closure(st, a[2], [acc, item])
+        return acc
+
+    def _into_iter2(ex_, st, fr, t, a):
+        return a[0]
+    wm.on(SX.by(None, "iter"), _iter)
+    wm.on(SX.by(None, "iter_mut"), _iter)
+    wm.on(SX.by(None, "zip"), _zip)
+    wm.on(SX.by(None, "rev"), _rev)
+    wm.on(SX.by(None, "fold"), _fold)
     wm.on(SX.by(None, "into_iter"), _into_iter)
     wm.on(SX.by(None, "next"), _next)
     wm.on(SX.by(None, "checked_sub"), _checked_sub)
